@@ -360,6 +360,7 @@ def run(ctx):
             want_src = {'sign_corrections': 'sign_correction', 'from': 'from', 'to': 'to'}[fld]
             srcfld = mir.subterms(v, lambda x: x[0] == 'fld' and x[2] == want_src)
             slots_ok[fld] = same and bool(srcfld) and util.const_val(r[0]) == 0 and util.const_val(r[1]) == 6
+    _parameter_handover(ctx, prog)
     _component_table(ctx, prog, pp, opl[0])
     for nkey in sorted(ARMS):
         ctx.check(arms.get(nkey) == ARMS[nkey], 'R20.4', 'arm%d' % nkey, pp.where(0), pp.path,
@@ -677,3 +678,31 @@ def _is_j_plus_1(g):
     # (j + 1) lowered as (AddWithOverflow(j,1)).0
     s = show(g, maxdepth=5)
     return ('+ 1' in s) and ('Some' in s or 'next' in s)
+
+
+def _parameter_handover(ctx, prog):
+    """R20.10: what was extracted is what the solver gets - every Parameters value built from a URDFParameters takes each
+    length, the sign corrections and dof from the field of the same name, and the offsets from the caller"""
+    ctx.rule('R20.10', 'Parameters built from URDFParameters (to_robot, parameters): every field from the field of the same name, offsets from the argument')
+    n = 0
+    for b in [x for p_, x in prog.bodies.items() if p_.startswith('urdf::URDFParameters::') and x.kind != 'Closure']:
+        for i, j, st in b.stmts():
+            rv = st['rv']
+            if not (rv['k'] == 'agg' and isinstance(rv.get('kind'), dict) and (rv['kind'].get('adt') or '').endswith('::Parameters')):
+                continue
+            ctx.fn(b)
+            flds = rv['kind'].get('fields') or []
+            t = b.rv_term(rv, (i, j))
+            bad = []
+            for f, v in zip(flds, t[2:]):
+                v = strip(v)
+                if f == 'offsets':
+                    ok = util.param_index(v) is not None and util.param_index(v) >= 2
+                else:
+                    ok = isinstance(v, tuple) and v[0] == 'fld' and v[2] == f and util.is_param(v[1], 1)
+                if not ok:
+                    bad.append('%s <- %s' % (f, show(v, maxdepth=3)))
+            n += 1
+            ctx.check(not bad, 'R20.10', b.path.split('::')[-1], b.where(i, j), b.path,
+                      'the parameters handed to the solver must be the extracted ones, field by field: ' + '; '.join(bad), found=str(bad), detail='%d fields' % len(flds))
+    ctx.floor('R20.10 parameter hand-overs', n, 1)
